@@ -689,3 +689,290 @@ pub fn shrink_list<T: Clone>(items: &[T], fails: &mut dyn FnMut(&[T]) -> bool) -
     }
     cur
 }
+
+// ------------------------------------------------------------------------------------------
+// Shards in child processes: for workloads where the code under test may hang, abort or
+// overflow the stack. The child runs one shard in-process and prints its Stats as JSON; the
+// parent merges. A dead child is re-run in trace mode to find the case it died in, and that
+// single case is re-run alone under a CPU limit to confirm (decided on CPU seconds, not wall).
+
+fn violation_json(v: &Violation) -> Json {
+    json!({ "clause": v.clause, "sig": v.sig, "detail": v.detail, "case": v.case })
+}
+fn violation_from(j: &Json) -> Option<Violation> {
+    Some(Violation {
+        clause: j.get("clause")?.as_str()?.to_string(),
+        sig: j.get("sig")?.as_str()?.to_string(),
+        detail: j.get("detail")?.as_str()?.to_string(),
+        case: j.get("case")?.clone(),
+    })
+}
+
+impl Stats {
+    pub fn to_json(&self) -> Json {
+        json!({
+            "evaluations": self.evaluations,
+            "distinct": self.distinct.iter().collect::<Vec<_>>(),
+            "distinct_saturated": self.distinct_saturated,
+            "counters": self.counters,
+            "samples": self.samples,
+            "violations": self.violations.iter().map(violation_json).collect::<Vec<_>>(),
+            "inconclusive": self.inconclusive,
+            "exhaustive": self.exhaustive,
+            "notes": self.notes,
+        })
+    }
+    pub fn from_json(j: &Json) -> Option<Stats> {
+        let mut s = Stats::new();
+        s.evaluations = j.get("evaluations")?.as_u64()?;
+        for h in j.get("distinct")?.as_array()? {
+            s.distinct.insert(h.as_u64()?);
+        }
+        s.distinct_saturated = j.get("distinct_saturated")?.as_bool()?;
+        for (k, v) in j.get("counters")?.as_object()? {
+            s.counters.insert(k.clone(), v.as_u64()?);
+        }
+        s.samples = j.get("samples")?.as_array()?.clone();
+        for v in j.get("violations")?.as_array()? {
+            s.violations.push(violation_from(v)?);
+        }
+        for v in j.get("inconclusive")?.as_array()? {
+            s.inconclusive.push(v.as_str()?.to_string());
+        }
+        for v in j.get("exhaustive")?.as_array()? {
+            s.exhaustive.push(v.as_str()?.to_string());
+        }
+        for v in j.get("notes")?.as_array()? {
+            s.notes.push(v.as_str()?.to_string());
+        }
+        Some(s)
+    }
+}
+
+/// In a child running with VERIF_TRACE=1: announce the case about to be executed.
+pub fn breadcrumb(case: impl FnOnce() -> Json) {
+    static ON: std::sync::OnceLock<bool> = std::sync::OnceLock::new();
+    if *ON.get_or_init(|| std::env::var("VERIF_TRACE").map(|v| v == "1").unwrap_or(false)) {
+        crate::out!("CASE {}", case());
+    }
+}
+
+/// Child side of `child_shards`: `args` = ["shard", i, n, tag…]. Runs `f` and prints the Stats.
+pub fn worker_shard_main<F>(cli: &Cli, args: &[String], f: F) -> i32
+where
+    F: Fn(usize, usize, &[String], &mut Rng, &mut Stats),
+{
+    let shard: usize = args.get(1).and_then(|s| s.parse().ok()).unwrap_or(0);
+    let n: usize = args.get(2).and_then(|s| s.parse().ok()).unwrap_or(1);
+    let mut rng = Rng::derive(cli.seed, shard as u64 + 1);
+    let mut st = Stats::new();
+    match crate::pan::catch_frames(|| f(shard, n, &args[3.min(args.len())..], &mut rng, &mut st)) {
+        Ok(()) => {}
+        Err(p) => st.inconclusive(format!(
+            "harness shard {} panicked outside a monitored call: {} at {}:{} [{}]",
+            shard, p.msg, p.file, p.line, p.frame
+        )),
+    }
+    crate::out!("STATS {}", st.to_json());
+    0
+}
+
+/// Child side for a single case: reads the case JSON on stdin, replays it, prints violations.
+pub fn worker_case_main<C: Check>(c: &C, cli: &Cli) -> i32 {
+    let mut text = String::new();
+    use std::io::Read;
+    if std::io::stdin().read_to_string(&mut text).is_err() {
+        return 2;
+    }
+    let Ok(case) = serde_json::from_str::<Json>(&text) else {
+        return 2;
+    };
+    std::env::set_var("VERIF_CHILD_CASE", "1");
+    let vs = c.replay(cli, &case);
+    crate::out!("VIOLS {}", Json::Array(vs.iter().map(violation_json).collect()));
+    0
+}
+
+/// True inside a `--worker case` child: `replay` must then judge in-process.
+pub fn in_case_child() -> bool {
+    std::env::var("VERIF_CHILD_CASE").map(|v| v == "1").unwrap_or(false)
+}
+
+/// Classify the death of a single-case child. Ok(violation) or Err(why inconclusive).
+pub fn death_to_violation(id: &str, case: &Json, c: &crate::child::ChildOutcome, case_cpu_s: u64) -> Result<Violation, String> {
+    let (clause, cause) = if c.signal == Some(libc::SIGXCPU) || (c.signal == Some(libc::SIGKILL) && c.cpu_s >= case_cpu_s as f64 - 1.0) {
+        ("does-not-return".to_string(), format!("cpu>{}s-alone-in-a-child", case_cpu_s))
+    } else if c.wall_killed {
+        return Err(format!("single case hit the wall-clock back-stop ({})", c.describe()));
+    } else if let Some(sig) = c.signal {
+        ("abnormal-termination".to_string(), format!("signal={}", sig))
+    } else {
+        return Err(format!("single-case child failed: {}", c.describe()));
+    };
+    Ok(Violation {
+        sig: format!("{}|{}|{}", id, clause, cause),
+        clause,
+        detail: format!("the case, run alone in a child process, ended with {}", c.describe()),
+        case: case.clone(),
+    })
+}
+
+/// Replay one case in a child under a CPU limit (for properties whose violation is a hang/abort).
+pub fn replay_via_child(id: &str, case: &Json, case_cpu_s: u64, as_bytes: Option<u64>) -> Vec<Violation> {
+    match run_case_in_child(case, case_cpu_s, as_bytes) {
+        Ok(vs) => vs,
+        Err(c) => match death_to_violation(id, case, &c, case_cpu_s) {
+            Ok(v) => vec![v],
+            Err(why) => {
+                crate::out!("INCONCLUSIVE property={} {}", id, why);
+                vec![]
+            }
+        },
+    }
+}
+
+pub struct ChildShardCfg {
+    /// CPU-seconds limit of one shard child
+    pub shard_cpu_s: u64,
+    /// CPU-seconds limit when one case is re-run alone to confirm a death
+    pub case_cpu_s: u64,
+    pub as_bytes: Option<u64>,
+    pub tag: Vec<String>,
+}
+
+fn parse_prefixed<'a>(out: &'a [u8], prefix: &str) -> Vec<&'a str> {
+    std::str::from_utf8(out)
+        .unwrap_or("")
+        .lines()
+        .filter_map(|l| l.strip_prefix(prefix))
+        .collect()
+}
+
+/// Run one case alone in a child (`--worker case`, case JSON on stdin) under a CPU limit.
+/// Returns Ok(violations) or Err(outcome) when the child died.
+pub fn run_case_in_child(case: &Json, cpu_s: u64, as_bytes: Option<u64>) -> Result<Vec<Violation>, crate::child::ChildOutcome> {
+    let lim = crate::child::Limits {
+        cpu_s,
+        as_bytes,
+        wall_s: (cpu_s as f64) * 20.0 + 120.0,
+        stack_bytes: None,
+    };
+    match crate::child::run_self(&["case".to_string()], case.to_string().as_bytes(), &lim) {
+        Ok(o) if o.ok() => {
+            let mut vs = Vec::new();
+            for l in parse_prefixed(&o.stdout, "VIOLS ") {
+                if let Ok(Json::Array(a)) = serde_json::from_str::<Json>(l) {
+                    for v in a {
+                        if let Some(v) = violation_from(&v) {
+                            vs.push(v);
+                        }
+                    }
+                }
+            }
+            Ok(vs)
+        }
+        Ok(o) => Err(o),
+        Err(e) => Err(crate::child::ChildOutcome {
+            exit: None,
+            signal: None,
+            stdout: format!("spawn failed: {}", e).into_bytes(),
+            cpu_s: 0.0,
+            wall_s: 0.0,
+            wall_killed: false,
+            max_rss_kb: 0,
+        }),
+    }
+}
+
+/// Parent side: spawn `n` children (`--worker shard <i> <n> <tag…>`), merge their Stats.
+pub fn child_shards(_cli: &Cli, id: &str, n: usize, st: &mut Stats, cfg: &ChildShardCfg) {
+    let results: Vec<Stats> = std::thread::scope(|s| {
+        let mut hs = Vec::new();
+        for i in 0..n {
+            hs.push(s.spawn(move || {
+                let mut local = Stats::new();
+                let mut args = vec!["shard".to_string(), i.to_string(), n.to_string()];
+                args.extend(cfg.tag.iter().cloned());
+                let lim = crate::child::Limits {
+                    cpu_s: cfg.shard_cpu_s,
+                    as_bytes: cfg.as_bytes,
+                    wall_s: (cfg.shard_cpu_s as f64) * 20.0 + 300.0,
+                    stack_bytes: None,
+                };
+                let o = match crate::child::run_self(&args, b"", &lim) {
+                    Ok(o) => o,
+                    Err(e) => {
+                        local.inconclusive(format!("cannot spawn shard child {}: {}", i, e));
+                        return local;
+                    }
+                };
+                if o.ok() {
+                    let mut got = false;
+                    for l in parse_prefixed(&o.stdout, "STATS ") {
+                        if let Some(s) = serde_json::from_str::<Json>(l).ok().and_then(|j| Stats::from_json(&j)) {
+                            local.merge(s);
+                            got = true;
+                        }
+                    }
+                    if !got {
+                        local.inconclusive(format!("shard child {} returned no statistics", i));
+                    }
+                    local.add("child_cpu_ms", (o.cpu_s * 1000.0) as u64);
+                    return local;
+                }
+                // the child died: find the case it died in (trace mode is deterministic)
+                local.count("shard_children_died");
+                if o.wall_killed {
+                    local.inconclusive(format!("shard child {} hit the wall-clock back-stop ({})", i, o.describe()));
+                    return local;
+                }
+                let exe = match std::env::current_exe() {
+                    Ok(e) => e,
+                    Err(_) => {
+                        local.inconclusive("current_exe unavailable");
+                        return local;
+                    }
+                };
+                let mut cmd = std::process::Command::new(exe);
+                cmd.arg("--worker").args(&args).env("VERIF_TRACE", "1");
+                let traced = crate::child::run_cmd(cmd, b"", &lim);
+                let last_case: Option<Json> = traced.ok().and_then(|t| {
+                    parse_prefixed(&t.stdout, "CASE ")
+                        .last()
+                        .and_then(|l| serde_json::from_str::<Json>(l).ok())
+                });
+                let Some(case) = last_case else {
+                    local.inconclusive(format!("shard child {} died ({}) and the responsible case could not be identified", i, o.describe()));
+                    return local;
+                };
+                match run_case_in_child(&case, cfg.case_cpu_s, cfg.as_bytes) {
+                    Ok(vs) => {
+                        if vs.is_empty() {
+                            local.inconclusive(format!("shard child {} died ({}) but the last case it announced runs fine alone", i, o.describe()));
+                        }
+                        for v in vs {
+                            local.violation(v);
+                        }
+                    }
+                    Err(c) => match death_to_violation(id, &case, &c, cfg.case_cpu_s) {
+                        Ok(v) => local.violation(v),
+                        Err(why) => local.inconclusive(why),
+                    },
+                }
+                local
+            }));
+        }
+        hs.into_iter()
+            .map(|h| {
+                h.join().unwrap_or_else(|_| {
+                    let mut s = Stats::new();
+                    s.inconclusive("a parent-side shard thread died");
+                    s
+                })
+            })
+            .collect()
+    });
+    for r in results {
+        st.merge(r);
+    }
+}
